@@ -20,7 +20,7 @@ package xtype
 //@     && (t.ListFixed ==> t.List)
 //@     && (t.Signature ==> t.SignatureType != nil)
 //@     && (t.Func ==> t.FuncType != nil && t.Signature)
-//@ typeinv Type(t) = t.T != nil && TypeFieldsOK(t)
+//@ typeinv Type(t) = t.T != nil && TypeFieldsOK(t) && (t.Named ==> dynIs[*types.Named](t.T))
 
 // every field of *Type except the enum cache is fixed once TypeOf/applyTo/inStruct have built the object
 //@ immutable Type String T Interface InterfaceType Struct StructType Named NamedType Pointer PointerType PointerInner List ListFixed ListInner Map MapType MapKey MapValue Basic BasicType Signature SignatureType Func FuncType Chan ChanType
@@ -265,8 +265,24 @@ package xtype
 //@   ensures result != nil && isFresh(result)
 
 // C01/C10: zero values of composite types are spelled with the full rendering of the type (type arguments included)
+// C13 (F16, fixed dd06547): the zero literal exists for every type a *Type can hold (Type.T is unaliased and one of the
+// value kinds); before the fix `unsafe.Pointer` reached the first panic (update:ignoreZeroValueField:basic and a field of
+// type unsafe.Pointer on both sides). Excluded by the precondition: untyped nil / invalid basic types, type parameters,
+// tuples, unions and aliases (never stored in Type.T of a struct field; TypeOf unaliases).
+// ASSUMED about go/types (listed in the evidence): every basic type is a string, numeric or boolean type, or
+// unsafe.Pointer, untyped nil or the invalid type.
+//@ axiom forall b *types.Basic :: b.Info()&types.IsString != 0 || b.Info()&types.IsNumeric != 0 || b.Info()&types.IsBoolean != 0 || b.Kind() == types.UnsafePointer || b.Kind() == types.UntypedNil || b.Kind() == types.Invalid
+//@ pred ZeroLeafOK(t types.Type) bool = (dynIs[*types.Basic](t) && unboxed[*types.Basic](t).Kind() != types.UntypedNil && unboxed[*types.Basic](t).Kind() != types.Invalid)
+//@     || dynIs[*types.Struct](t) || dynIs[*types.Array](t) || dynIs[*types.Interface](t) || dynIs[*types.Signature](t)
+//@     || dynIs[*types.Pointer](t) || dynIs[*types.Map](t) || dynIs[*types.Slice](t) || dynIs[*types.Chan](t)
+// ASSUMED about go/types for packages that loaded without errors: the underlying type of a named type is a
+// (typed, valid) basic type or an unnamed composite type, never a type parameter, tuple or union.
+//@ axiom forall n *types.Named :: ZeroLeafOK(n.Underlying())
+//@ pred ZeroValueOK(t types.Type) bool = ZeroLeafOK(t) || dynIs[*types.Named](t)
 //@ func ZeroValue(t)
-//@   props C01 C10
+//@   props C01 C10 C13
+//@   requires@C13 ZeroValueOK(t)
+//@   variant ite(dynIs[*types.Named](t), 1, 0)
 //@   ensures result != nil
 //@   ensures dynIs[*types.Named](t) && dynIs[*types.Struct](unboxed[*types.Named](t).Underlying()) ==> result == jen.Parens(toCode(t).Block())
 //@   ensures dynIs[*types.Struct](t) || dynIs[*types.Array](t) ==> result == toCode(t).Block()
